@@ -40,6 +40,9 @@ def main(tier, seed, replay):
     try:
         if replay:
             build()
+            if json.load(open(replay)).get("layer") == "A3-real-rustc":
+                import c19_a3
+                return c19_a3.replay(replay)
             rc, out = sh([BIN, "replay", replay, "--shim", SHIM])
             print(out, end="")
             return rc
@@ -81,9 +84,21 @@ def do_check(tier, seed, t0):
         log("  %s: %s" % (v["replay"], v["what"]))
     layers["A1_native_session"] = {k: a[k] for k in a if k not in ("samples", "violations", "errors", "_rc")}
 
+    # ---- layer A3: the real proc-macro dylib inside the real rustc
+    import c19_a3
+    a3 = None
+    if not viol_lines:
+        a3 = c19_a3.run(tier, seed, BIN)
+        for v in a3["violations"]:
+            if c19_a3.replay_quiet(v["replay"]) != 1:
+                raise Harness("A3 violation %s did not reproduce on replay" % v["replay"])
+            viol_lines.append("VIOLATION property=C19 replay=%s" % v["replay"])
+            log("  %s: %s" % (v["replay"], v["what"]))
+        layers["A3_real_rustc"] = {k: a3[k] for k in a3 if k != "violations"}
+
     wall = time.time() - t0
     coverage = {
-        "evaluations": a["requests"],
+        "evaluations": a["requests"] + (a3["module_comparisons"] if a3 else 0),
         "distinct_nontrivial": a["distinct_nontrivial_contexts"],
         "rule": "one evaluation = one expansion request (derive, item) served by the real expanders of /repo/impl/src inside a simulated compiler session "
                 "(1..4 worker threads released one at a time by the simulator; seeded request order, noise requests, repeats; seeded entropy behind an interposed getrandom, "
@@ -102,7 +117,8 @@ def do_check(tier, seed, t0):
         "determinism_selfcheck": "%d session processes re-run in a fresh process with the identical plan; observation logs byte-identical" % a["selfchecked_processes"],
         "components": {
             "real": ["every expander module of /repo/impl/src (compiled in-process through a generated #[path] shadow crate, rebuilt from the working tree)", "syn / quote / proc-macro2"],
-            "stubbed": ["rustc's proc-macro bridge (proc-macro2 fallback token streams)", "the `create_derive!` entry points and Output::process (re-created from lib.rs by gen_shadow.py)"],
+            "stubbed": ["layer A1: rustc's proc-macro bridge (proc-macro2 fallback token streams) and the `create_derive!` entry points / Output::process (re-created from lib.rs by gen_shadow.py)",
+                        "layer A3 stubs nothing: real rustc (nightly, -Zunpretty=expanded), real bridge, the real proc-macro dylib built by cargo from the working tree"],
             "simulated": ["OS entropy (getrandom)", "address-space layout", "clock, pid, environment block", "worker schedule", "expansion history", "faults"],
         },
         "exhaustive": False,
